@@ -239,6 +239,8 @@ def rough(seed):
 
 TEMPLATES = {
     'se3rough': rough,
+    'se2desc': lambda s: make('SE2', s, ids=lambda j: 100 - 7 * j),                    # the first listed vertex does NOT carry the smallest id
+    'se3desc': lambda s: make('SE3', s, ids=lambda j: (-1) ** j * (3 * j + 2), fixed=(2,)),
     'se2pair': lambda s: make('SE2', s, n_poses=2, n_landmarks=0, closures=0, fixed=(0,)),
     # graphs a .g2o file can express (identity SE(2) offsets; SE(3) offsets registered as parameters by the session, names ending in 'reg')
     'se2plain': lambda s: make('SE2', s, file_expressible=True, fixed=(2,)),
